@@ -69,6 +69,68 @@ type Path struct {
 	hasSymCache  map[types.Type]bool
 	fakeAddr     map[*value]uint64
 	unknownFeas  int
+	vinfo        map[*Term]*varInfo
+	tvars        map[*Term][]*Term
+	Shortcuts    int
+	unsent       []*Term
+}
+
+// varInfo tracks the remaining domain of a small-range variable as long as
+// every path-condition conjunct mentioning it mentions no other variable
+// ("isolated").  For such variables feasibility is decided by evaluation over
+// the domain instead of a solver call (exact, not an approximation).
+type varInfo struct {
+	dom      []uint64
+	isolated bool
+}
+
+func (p *Path) termVars(t *Term) []*Term {
+	if t.op == OpConst {
+		return nil
+	}
+	if vs, ok := p.tvars[t]; ok {
+		return vs
+	}
+	var vs []*Term
+	if t.op == OpVar {
+		vs = []*Term{t}
+	} else {
+		for _, x := range []*Term{t.a, t.b, t.c} {
+			if x == nil {
+				continue
+			}
+			for _, v := range p.termVars(x) {
+				dup := false
+				for _, u := range vs {
+					if u == v {
+						dup = true
+					}
+				}
+				if !dup {
+					vs = append(vs, v)
+				}
+			}
+		}
+	}
+	p.tvars[t] = vs
+	return vs
+}
+
+// isolatedVar returns the single isolated small-domain variable of t, if any.
+func (p *Path) isolatedVar(t *Term) (*Term, *varInfo) {
+	vs := p.termVars(t)
+	if len(vs) != 1 {
+		return nil, nil
+	}
+	vi := p.vinfo[vs[0]]
+	if vi == nil || !vi.isolated {
+		return nil, nil
+	}
+	return vs[0], vi
+}
+
+func evalWith(t, v *Term, val uint64) uint64 {
+	return t.eval(func(x *Term) uint64 { return val })
 }
 
 func (P *Program) NewPath(solver *Solver, prefix []Decision) *Path {
@@ -83,6 +145,8 @@ func (P *Program) NewPath(solver *Solver, prefix []Decision) *Path {
 		fnCount:     make(map[*ssa.Function]int),
 		hasSymCache: make(map[types.Type]bool),
 		fakeAddr:    make(map[*value]uint64),
+		vinfo:       make(map[*Term]*varInfo),
+		tvars:       make(map[*Term][]*Term),
 	}
 }
 
@@ -91,10 +155,29 @@ func (p *Path) count(fn *ssa.Function) { p.fnCount[fn]++ }
 // replaying reports whether the path is still inside its given prefix.
 func (p *Path) replaying() bool { return p.pos < len(p.prefix) }
 
-func (p *Path) flush() {
+// flush sends pending path-condition conjuncts to the solver.  Conjuncts over
+// a single isolated variable are independent of every other constraint and
+// are held back (independence slicing) until that variable stops being
+// isolated or a full model is needed.
+func (p *Path) flush() { p.flushMode(false) }
+
+func (p *Path) flushAll() { p.flushMode(true) }
+
+func (p *Path) flushMode(all bool) {
 	for ; p.asserted < len(p.pc); p.asserted++ {
-		p.solver.Assert(p.pc[p.asserted])
+		p.unsent = append(p.unsent, p.pc[p.asserted])
 	}
+	keep := p.unsent[:0]
+	for _, t := range p.unsent {
+		if !all {
+			if v, _ := p.isolatedVar(t); v != nil {
+				keep = append(keep, t)
+				continue
+			}
+		}
+		p.solver.Assert(t)
+	}
+	p.unsent = keep
 }
 
 func (p *Path) addPC(t *Term) {
@@ -103,6 +186,21 @@ func (p *Path) addPC(t *Term) {
 	}
 	p.pc = append(p.pc, t)
 	p.learn(t, true)
+	if v, vi := p.isolatedVar(t); v != nil {
+		var nd []uint64
+		for _, x := range vi.dom {
+			if evalWith(t, v, x) != 0 {
+				nd = append(nd, x)
+			}
+		}
+		vi.dom = nd
+	} else {
+		for _, v := range p.termVars(t) {
+			if vi := p.vinfo[v]; vi != nil {
+				vi.isolated = false
+			}
+		}
+	}
 }
 
 func (p *Path) learn(t *Term, val bool) {
@@ -167,19 +265,31 @@ func (p *Path) decide(t *Term, why string) bool {
 		d = p.prefix[p.pos]
 		p.pos++
 	} else {
-		p.flush()
-		rT := p.solver.Check(t)
-		feasT := rT != Unsat
-		feasF := true
-		if feasT {
-			rF := p.solver.Check(p.ts.Not(t))
-			feasF = rF != Unsat
-			if rF == Unknown {
+		var feasT, feasF bool
+		if v, vi := p.isolatedVar(t); v != nil {
+			p.Shortcuts++
+			for _, x := range vi.dom {
+				if evalWith(t, v, x) != 0 {
+					feasT = true
+				} else {
+					feasF = true
+				}
+			}
+		} else {
+			p.flush()
+			rT := p.solver.Check(t)
+			feasT = rT != Unsat
+			feasF = true
+			if feasT {
+				rF := p.solver.Check(p.ts.Not(t))
+				feasF = rF != Unsat
+				if rF == Unknown {
+					p.unknownFeas++
+				}
+			}
+			if rT == Unknown {
 				p.unknownFeas++
 			}
-		}
-		if rT == Unknown {
-			p.unknownFeas++
 		}
 		switch {
 		case feasT && feasF:
@@ -215,8 +325,22 @@ func (p *Path) concretise(s *Sym, why string) value {
 		d = p.prefix[p.pos]
 		p.pos++
 	} else {
-		p.flush()
-		vals, complete := p.solver.Enumerate(s.t, p.P.Limits.MaxConc)
+		var vals []uint64
+		complete := true
+		if v, vi := p.isolatedVar(s.t); v != nil {
+			p.Shortcuts++
+			seen := map[uint64]bool{}
+			for _, x := range vi.dom {
+				y := evalWith(s.t, v, x)
+				if !seen[y] {
+					seen[y] = true
+					vals = append(vals, y)
+				}
+			}
+		} else {
+			p.flush()
+			vals, complete = p.solver.Enumerate(s.t, p.P.Limits.MaxConc)
+		}
 		if !complete {
 			panic(fuelExhausted{"concretise(" + why + "): more than " + fmt.Sprint(p.P.Limits.MaxConc) + " feasible values (missing verifAssume?)"})
 		}
@@ -267,13 +391,17 @@ func (p *Path) assert(clause string, t *Term, detail string) {
 			p.AssertsRewr++
 			return
 		}
-		p.flush()
+		p.flushAll()
 		_, m := p.solver.Model(nil)
 		p.Violations = append(p.Violations, Violation{Clause: clause, Detail: detail, Model: m, Kind: "assert"})
 		panic(pathAbort{"violation " + clause})
 	}
 	p.flush()
 	p.AssertsZ3++
+	if p.solver.Check(p.ts.Not(t)) == Unsat {
+		return
+	}
+	p.flushAll()
 	r, m := p.solver.Model(p.ts.Not(t))
 	switch r {
 	case Unsat:
@@ -289,7 +417,7 @@ func (p *Path) assert(clause string, t *Term, detail string) {
 
 // FinalModel returns a model of the complete path condition.
 func (p *Path) FinalModel() map[string]uint64 {
-	p.flush()
+	p.flushAll()
 	r, m := p.solver.Model(nil)
 	if r != Sat {
 		return nil
@@ -337,11 +465,19 @@ func init() {
 				return int(0)
 			}
 			t := p.freshVar(args[0].(string), 64, "int", n)
+			if n <= 64 {
+				vi := &varInfo{isolated: true}
+				for i := 0; i < n; i++ {
+					vi.dom = append(vi.dom, uint64(i))
+				}
+				p.vinfo[t] = vi
+			}
 			p.addPC(p.ts.Bin(OpULt, t, p.ts.Const(uint64(n), 64)))
 			return &Sym{k: types.Int, t: t}
 		},
 		"verifNdBool": func(p *Path, fr *frame, args []value) value {
 			t := p.freshVar(args[0].(string), 0, "bool", 0)
+			p.vinfo[t] = &varInfo{isolated: true, dom: []uint64{0, 1}}
 			return &Sym{k: types.Bool, t: t}
 		},
 		"verifNdI64": func(p *Path, fr *frame, args []value) value {
